@@ -19,6 +19,8 @@ Note:
     These samplers are designed for use in testing. Because they calculate
     energy for every possible sample, they are very slow.
 """
+import math
+
 from itertools import product
 
 import numpy as np
@@ -327,5 +329,6 @@ def _iterator_by_vartype(cqm, v):
     if cqm.vartype(v) is Vartype.SPIN:
         return [-1, 1]
     if cqm.vartype(v) is Vartype.INTEGER:
-        return range(int(cqm.lower_bound(v)), int(cqm.upper_bound(v)+1))
+        # the bounds are not necessarily integral
+        return range(math.ceil(cqm.lower_bound(v)), math.floor(cqm.upper_bound(v)) + 1)
     raise ValueError("Only Binary, Spin, or Integer variables supported by ExactCQMSolver")
